@@ -215,9 +215,16 @@ impl Scenario for FaultScn {
         // ---- recovery: fresh session, fresh handler instance, un-gated view
         let r = w.actor(9, None);
         let mut m_after: Option<u64> = None;
-        match catch_async(r.open()).await {
-            Err(p) => out.push(("open-latest-panic", format!("opening latest panicked: {p} at {}", last_panic_site()))),
-            Ok(Err(e)) => {
+        let dangling = ext_dangling(w);
+        if let Some(d) = &dangling {
+            // one structural cause, whatever else was injected: reported under one key, not judged further
+            out.push(("ext-dangling", format!("{d}; a fresh open gives: {:?}", catch_async(r.open()).await.map(|r| r.map(|d| d.version().version).map_err(|e| e.to_string().chars().take(160).collect::<String>())))));
+        }
+        let opened = if dangling.is_some() { None } else { Some(catch_async(r.open()).await) };
+        match opened {
+            None => {}
+            Some(Err(p)) => out.push(("open-latest-panic", format!("opening latest panicked: {p} at {}", last_panic_site()))),
+            Some(Ok(Err(e))) => {
                 if self.pre_version == 0 && !published {
                     m_after = Some(0);
                 } else {
@@ -227,7 +234,7 @@ impl Scenario for FaultScn {
                     ));
                 }
             }
-            Ok(Ok(ds)) => 'chk: {
+            Some(Ok(Ok(ds))) => 'chk: {
                 let m = ds.version().version;
                 m_after = Some(m);
                 let expect_m = if self.detached { self.pre_version } else { self.pre_version + n_published };
@@ -382,6 +389,9 @@ impl Scenario for FaultScn {
             .map(|(oracle, what)| {
                 let key = if oracle.ends_with("-panic") {
                     format!("c01/{}/{}", oracle, last_panic_site())
+                } else if oracle == "ext-dangling" {
+                    // which writer step left the mapping dangling: its own cleanup after the (lost) put
+                    format!("c01/{}/{}", kind.tag(), oracle)
                 } else if oracle == "detached-became-latest" {
                     format!("c01/{}/{}", kind.tag(), oracle)
                 } else {
